@@ -1,10 +1,13 @@
 """C17 — metrics store calls survive transient faults and never repeat after success (esrally.metrics.EsClient.guarded).
 
-Leg M   : TLC on specs/Guarded: (a) full outcome alphabet (77 letters incl. every set of bulk item statuses) with full
-          history and a small budget, (b) the real budget of 10 retries with full history over a reduced alphabet,
-          (c) the real budget over the full alphabet with the history hidden by VIEW.  The property clauses and "the
-          transcription retries exactly the documented transient classes while retries remain" are invariants.
-          Self-test: a loop allowing one retry more than documented violates the property in the model.
+Leg M   : TLC on specs/Guarded: (a) every status / set of bulk item statuses (77 letters) and, separately, every SHAPE of
+          the error body (ApiError.body: ES error object, string error, error without type, JSON without error, {}, None,
+          str, bytes, list; bulk items: error object / error string) with full history and a small budget, (b) the real
+          budget of 10 retries with full history over a reduced alphabet, (c) the real budget over the full alphabet
+          (status x shape, 292 letters) with the history hidden by VIEW.  The property clauses and "the transcription
+          retries exactly the documented transient classes while retries remain, whatever the body shape" are
+          invariants.  Self-tests: a loop allowing one retry more than documented, and the pinned handling of string
+          item errors (ItemShapeTolerant = FALSE), violate the property in the model.
 Leg S2C : every path of (b), an edge cover (every number of preceding retries x every outcome) for EVERY public operation of
           EsClient, and TLC -simulate behaviours are executed on the REAL EsClient through its public operations
           (bulk_index / index run the real elasticsearch.helpers.bulk, which raises the real BulkIndexError from scripted
@@ -32,7 +35,50 @@ UNIT = 1024  # recorded pauses: 1/1024 s
 TRANSIENT_CODES = (429, 502, 503, 504)
 API_CODES = [429, 502, 503, 504, 401, 403, 404, 400, 409, 500]
 ITEM_CODES = [429, 502, 503, 504, 400, 409]
+API_SHAPES = ["es", "errstr", "notype", "noerror", "empty", "none", "str", "bytes", "list"]
+ITEM_SHAPES = ["es", "errstr"]
 N_VARIANTS = 8
+
+
+def _shape(entry):
+    """Body shape of a script entry [k, code, items, r, variant(, shape)] (older replay files have no shape: Elasticsearch style)."""
+    if len(entry) > 5:
+        return entry[5]
+    return "es" if entry[0] in ("api", "bulk") else ""
+
+
+def api_body(shape, code, token):
+    """What elasticsearch-py can deliver as ApiError.body (= the deserialised HTTP response body) for an error status."""
+    if shape == "es":
+        return {"error": {"type": token, "reason": "scripted reason", "root_cause": [{"type": token, "reason": "scripted"}]}, "status": int(code)}
+    if shape == "errstr":  # REST-layer errors ("no handler found for uri ..."), legacy servers
+        return {"error": token + " no handler found", "status": int(code)}
+    if shape == "notype":
+        return {"error": {"reason": token + " something went wrong"}, "status": int(code)}
+    if shape == "noerror":  # JSON answer of a proxy in front of the store
+        return {"ok": False, "message": token + " unknown resource"}
+    if shape == "empty":
+        return {}
+    if shape == "none":  # HEAD requests carry no body
+        return None
+    if shape == "str":  # text/html or text/plain answer of a load balancer
+        return "<html><body><h1>%d %s</h1></body></html>" % (int(code), token)
+    if shape == "bytes":
+        return ("%d %s" % (int(code), token)).encode("ascii")
+    if shape == "list":
+        return [{"status": int(code), "msg": token}]
+    raise tlc.MachineryError("unknown body shape %r" % (shape,))
+
+
+def api_message(body):
+    """The message elasticsearch's BaseClient.perform_request derives from the response body."""
+    message = str(body)
+    if isinstance(body, dict):
+        error = body.get("error", message)
+        if isinstance(error, dict) and "type" in error:
+            error = error["type"]
+        message = error
+    return message
 
 
 class _Abort(BaseException):
@@ -91,9 +137,11 @@ class Session:
         i = len(self.calls)
         if i >= self.cap:
             raise _Abort()
-        k, code, items, _r, var = self.script[i] if i < len(self.script) else ("ok", 0, [], 0, 0)
+        entry = self.script[i] if i < len(self.script) else ["ok", 0, [], 0, 0, ""]
+        k, code, items, _r, var = entry[:5]
+        shape = _shape(entry)
         n = i + 1
-        self.calls.append({"o": {"k": k, "code": int(code), "items": sorted(items)}, "r": int(self.last_r), "p": 0, "ns": 0})
+        self.calls.append({"o": {"k": k, "code": int(code), "items": sorted(items), "shape": shape}, "r": int(self.last_r), "p": 0, "ns": 0})
         self.last_r = 0
         if k == "ok":
             if method == "bulk":
@@ -122,7 +170,11 @@ class Session:
             for j in range(ndocs):
                 if first <= j < first + len(statuses):
                     st = statuses[j - first]
-                    body_items.append({"index": {"_id": str(j), "status": st, "error": {"type": _item_token(st), "reason": "scripted %d" % n}}})
+                    if shape == "errstr":  # legacy shape of an item error
+                        err = "%s scripted %d" % (_item_token(st), n)
+                    else:
+                        err = {"type": _item_token(st), "reason": "scripted %d" % n}
+                    body_items.append({"index": {"_id": str(j), "status": st, "error": err}})
                 else:
                     body_items.append({"index": {"_id": str(j), "status": 201, "result": "created"}})
             prod = elastic_transport.ObjectApiResponse(body={"errors": True, "took": n, "items": body_items}, meta=_meta(200))
@@ -134,7 +186,8 @@ class Session:
             prod = [elasticsearch.ConnectionError("verif_conn_%d" % n), elastic_transport.TlsError("verif_tls_%d" % n), elasticsearch.ConnectionError("verif_conn_%d" % n, errors=(OSError("refused"),))][var % 3]
         elif k == "api":
             cls = elasticsearch.exceptions.HTTP_EXCEPTIONS.get(int(code), elasticsearch.ApiError)
-            prod = cls(message=_api_token(code, n), meta=_meta(int(code)), body={"error": {"type": _api_token(code, n), "root_cause": [{"reason": "scripted"}]}, "status": int(code)})
+            body = api_body(shape, code, _api_token(code, n))
+            prod = cls(message=api_message(body), meta=_meta(int(code)), body=body)
         elif k == "transportOther":
             prod = [
                 elastic_transport.SerializationError("verif_transport_%d" % n),
@@ -344,7 +397,7 @@ def _script_from_state(st, rnd):
     script = []
     for c in st["calls"]:
         o = c["o"]
-        script.append([str(o["k"]), int(o["code"]), sorted(int(x) for x in o["items"]), int(c["r"]), rnd.randrange(N_VARIANTS)])
+        script.append([str(o["k"]), int(o["code"]), sorted(int(x) for x in o["items"]), int(c["r"]), rnd.randrange(N_VARIANTS), str(o["shape"])])
     return script
 
 
@@ -386,7 +439,7 @@ def paths_from_dump(out, cfg_name, rnd, chooser):
         if str(st["kind"]) in chooser.by_kind:
             paths.append(st)
     # TLC's workers write the dump in a run-dependent order: sort before any seeded choice is made
-    paths.sort(key=lambda st: (st["kind"], [(c["o"]["k"], c["o"]["code"], sorted(c["o"]["items"]), c["r"]) for c in st["calls"]]))
+    paths.sort(key=lambda st: (st["kind"], [(c["o"]["k"], c["o"]["code"], sorted(c["o"]["items"]), c["o"]["shape"], c["r"]) for c in st["calls"]]))
     cases = []
     for st in paths:
         kind = str(st["kind"])
@@ -426,14 +479,23 @@ def behaviours_from_sim(ctx, out, num, rnd, chooser):
     return cases
 
 
-def alphabet(kind):
-    base = [["ok", 0, []], ["connTimeout", 0, []], ["connError", 0, []], ["transportOther", 0, []]] + [["api", c, []] for c in API_CODES]
+def alphabet(kind, shapes="es"):
+    """Letters (k, code, items, shape).  shapes: "es" = Elasticsearch-style bodies only, "other" = every other body shape, "all"."""
+    want = (lambda sh: sh == "es") if shapes == "es" else (lambda sh: sh != "es") if shapes == "other" else (lambda sh: True)
+    base = []
+    if shapes != "other":
+        base += [("ok", 0, [], ""), ("connTimeout", 0, [], ""), ("connError", 0, [], ""), ("transportOther", 0, [], "")]
+    base += [("api", c, [], sh) for c in API_CODES for sh in API_SHAPES if want(sh)]
     if kind == "bulk":
         for mask in range(1, 1 << len(ITEM_CODES)):
-            base.append(["bulk", 0, [c for b, c in enumerate(ITEM_CODES) if mask >> b & 1]])
+            base += [("bulk", 0, [c for b, c in enumerate(ITEM_CODES) if mask >> b & 1], sh) for sh in ITEM_SHAPES if want(sh)]
     elif kind == "bulk1":
-        base += [["bulk", 0, [c]] for c in ITEM_CODES]
+        base += [("bulk", 0, [c], sh) for c in ITEM_CODES for sh in ITEM_SHAPES if want(sh)]
     return base
+
+
+def _entry(o, r, variant):
+    return [o[0], o[1], list(o[2]), r, variant, o[3]]
 
 
 def _is_transient(o):
@@ -442,22 +504,26 @@ def _is_transient(o):
 
 
 def edge_cover(ops, rnd, budget=10):
-    """For EVERY public operation: every (number of preceding retries 0..budget) x (every outcome of the full alphabet)."""
+    """For EVERY public operation: every (number of preceding retries 0..budget) x (every status / set of item statuses, Elasticsearch-
+    style bodies), and every other body shape of every status at 0, some and `budget` preceding retries."""
     cases = []
     for op, kind in sorted(ops.items()):
-        alpha = alphabet(kind)
+        alpha = alphabet(kind, "es")
+        other = alphabet(kind, "other")
+        # the faults that precede the letter under test keep Elasticsearch-style bodies, so that the letter under test is reached
         transient = [o for o in alpha if _is_transient(o)]
-        for c in range(budget + 1):
-            for o in alpha:
-                script = [list(rnd.choice(transient)) + [rnd.choice([0, 1, 512, 1023]), rnd.randrange(N_VARIANTS)] for _ in range(c)]
-                script.append(list(o) + [rnd.choice([0, 1, 512, 1023]), rnd.randrange(N_VARIANTS)])
-                if _is_transient(o) and c < budget:
-                    # continue to a natural end: a few more transient faults, then success or a fatal error
-                    for _ in range(rnd.randint(0, min(2, budget - c - 1))):
-                        script.append(list(rnd.choice(transient)) + [rnd.choice([0, 512]), rnd.randrange(N_VARIANTS)])
-                    if len(script) <= budget or rnd.random() < 0.5:
-                        script.append(["ok", 0, [], 0, rnd.randrange(N_VARIANTS)])
-                cases.append({"src": "edge-cover", "op": op, "kind": kind, "script": script, "ndocs": _ndocs(script, kind, rnd)})
+        plan = [(c, o) for c in range(budget + 1) for o in alpha]
+        plan += [(c, o) for o in other for c in (0, rnd.randint(1, budget - 1), budget)]
+        for c, o in plan:
+            script = [_entry(rnd.choice(transient), rnd.choice([0, 1, 512, 1023]), rnd.randrange(N_VARIANTS)) for _ in range(c)]
+            script.append(_entry(o, rnd.choice([0, 1, 512, 1023]), rnd.randrange(N_VARIANTS)))
+            if _is_transient(o) and c < budget:
+                # continue to a natural end: a few more transient faults, then success or a fatal error
+                for _ in range(rnd.randint(0, min(2, budget - c - 1))):
+                    script.append(_entry(rnd.choice(transient), rnd.choice([0, 512]), rnd.randrange(N_VARIANTS)))
+                if len(script) <= budget or rnd.random() < 0.5:
+                    script.append(["ok", 0, [], 0, rnd.randrange(N_VARIANTS), ""])
+            cases.append({"src": "edge-cover", "op": op, "kind": kind, "script": script, "ndocs": _ndocs(script, kind, rnd)})
     return cases
 
 
@@ -469,13 +535,14 @@ def random_cases(seed, n, ops):
     for _ in range(n):
         op = rnd.choice(names)
         kind = ops[op]
-        alpha = alphabet(kind)
+        # half of the cases keep Elasticsearch-style bodies throughout, the others draw every letter's body shape at random
+        alpha = alphabet(kind, "es" if rnd.random() < 0.5 else "all")
         transient = [o for o in alpha if _is_transient(o)]
         final = [o for o in alpha if not _is_transient(o)]
         length = rnd.choice([0, 1, 2, 3, 5, 8, 9, 10, 11, 12])
-        script = [list(rnd.choice(transient)) + [rnd.randrange(UNIT), rnd.randrange(N_VARIANTS)] for _ in range(length)]
+        script = [_entry(rnd.choice(transient), rnd.randrange(UNIT), rnd.randrange(N_VARIANTS)) for _ in range(length)]
         if rnd.random() < 0.8:
-            script.append(list(rnd.choice(final if rnd.random() < 0.5 else [["ok", 0, []]])) + [rnd.randrange(UNIT), rnd.randrange(N_VARIANTS)])
+            script.append(_entry(rnd.choice(final if rnd.random() < 0.5 else [("ok", 0, [], "")]), rnd.randrange(UNIT), rnd.randrange(N_VARIANTS)))
         cases.append({"src": "random", "op": op, "kind": kind, "script": script, "ndocs": _ndocs(script, kind, rnd)})
     return cases
 
@@ -493,7 +560,15 @@ def _signature(case, item, clauses):
             last = o["k"]
     else:
         last = "-"
-    return {"clauses": sorted(clauses), "kind": case["kind"], "last_outcome": last, "finished": item["st"]["k"], "n_calls": min(len(calls), 12) if len(calls) >= 10 else "<10"}
+    return {
+        "clauses": sorted(clauses),
+        "kind": case["kind"],
+        "last_outcome": last,
+        "last_body_shape": calls[-1]["o"]["shape"] if calls else "",
+        "finished": item["st"]["k"],
+        "escaped_as": "" if item["st"]["rally"] or item["st"]["k"] != "raised" else item["st"]["cls"],
+        "n_calls": min(len(calls), 12) if len(calls) >= 10 else "<10",
+    }
 
 
 SITUATIONS = {}
@@ -513,6 +588,9 @@ def _count_situations(case):
     for j, o in enumerate(case["script"][:11]):
         key = (case["op"], _outcome_class(o), "0" if j == 0 else "10" if j == 10 else "1-9")
         SITUATIONS[key] = SITUATIONS.get(key, 0) + 1
+        if o[0] in ("api", "bulk"):
+            key = (case["op"], _outcome_class(o), "shape:" + _shape(o))
+            SITUATIONS[key] = SITUATIONS.get(key, 0) + 1
         if not _is_transient(o):
             break
 
@@ -526,7 +604,7 @@ def run_cases(cases, out, label, chunk=20000):
         item["id"] = "%s-%d" % (label, ci)
         items.append(item)
         index[item["id"]] = (case, item, detail)
-        out.add_case((case["op"], [s[:4] for s in case["script"]]), nontrivial=len(item["calls"]) >= 2)
+        out.add_case((case["op"], [s[:4] + [_shape(s)] for s in case["script"]]), nontrivial=len(item["calls"]) >= 2)
     if not items:
         raise tlc.MachineryError("no cases for %s" % label)
     verdicts = tracecheck.validate("Guarded", "TraceGuarded", "TraceGuarded.cfg", items, name="c17trace", chunk=chunk, timeout=1500)
@@ -540,14 +618,14 @@ def run_cases(cases, out, label, chunk=20000):
                 case,
                 signature=_signature(case, item, clauses),
                 detail="op=%s outcomes=%s -> %d calls, pauses=%s finished=%s %s"
-                % (case["op"], [(s[0], s[1] or s[2] or "") for s in case["script"]], len(item["calls"]), [c["p"] for c in item["calls"]], {k: v for k, v in item["st"].items() if v not in ("", 0, False)}, detail),
+                % (case["op"], [(s[0], s[1] or s[2] or "", _shape(s)) for s in case["script"]], len(item["calls"]), [c["p"] for c in item["calls"]], {k: v for k, v in item["st"].items() if v not in ("", 0, False)}, detail),
             )
         )
     for tid in verdicts.l2:
         case, item, detail = index[tid]
         out.drift.append(
             "run %s: op=%s outcomes=%s recorded pauses=%s sleeps=%s st=%s (%s) is not the transcription's behaviour"
-            % (tid, case["op"], [(s[0], s[1] or s[2] or "", s[3]) for s in case["script"]], [c["p"] for c in item["calls"]], [c["ns"] for c in item["calls"]], item["st"], detail)
+            % (tid, case["op"], [(s[0], s[1] or s[2] or "", _shape(s), s[3]) for s in case["script"]], [c["p"] for c in item["calls"]], [c["ns"] for c in item["calls"]], item["st"], detail)
         )
     return items
 
@@ -576,6 +654,9 @@ def run(ctx, out):
         "status code or message of the fault",
         "bulk_index / index return nothing by design; 'the first successful attempt's result is returned' is checked for the operations that return the client's result",
         "other Python exceptions (not API / transport / bulk errors) are outside the property and are not injected",
+        "ApiError objects are built as elasticsearch's BaseClient.perform_request builds them (message derived from the body) for every body the transport can deliver: "
+        "JSON object with error object / error string / error object without type / without error / empty, no body (HEAD), str (text/*), bytes, JSON array; bulk item errors "
+        "as object or (legacy) string; the documented reaction depends on the status only",
     ]
     rnd = random.Random(ctx.seed + 17)
     quick = ctx.quick
@@ -584,12 +665,20 @@ def run(ctx, out):
     chooser = OpChooser(ops)
     # ---- Leg M
     model_check(out, "Guarded.small.cfg")
+    model_check(out, "Guarded.shapes.cfg")
     model_check(out, "Guarded.view.cfg")
     wd = tlc.prepare_workdir("Guarded", "c17selftest")
     res = tlc.run_tlc(wd, "MC_Guarded", "Guarded.budget.cfg", timeout=600, allow_violation=True)
     if res.invariant_violated != "PropertyHolds":
         raise tlc.MachineryError("self-test failed: a loop with one retry more than documented does not violate PropertyHolds in the model")
-    out.extra["model_selftest"] = "variant with CodeMaxRetries = DocRetries + 1 violates PropertyHolds in the model, as expected"
+    wd = tlc.prepare_workdir("Guarded", "c17selftest")
+    res = tlc.run_tlc(wd, "MC_Guarded", "Guarded.pinned.cfg", timeout=600, allow_violation=True)
+    if res.invariant_violated != "PropertyHolds":
+        raise tlc.MachineryError("self-test failed: the pinned handling of string item errors (ItemShapeTolerant=FALSE) does not violate PropertyHolds in the model")
+    out.extra["model_selftest"] = (
+        "variant with CodeMaxRetries = DocRetries + 1 violates PropertyHolds in the model, as expected; pinned variant ItemShapeTolerant=FALSE "
+        "(AttributeError escapes for a bulk item whose error member is a string) violates PropertyHolds in the model, as expected"
+    )
     # ---- S2C
     cases = paths_from_dump(out, "Guarded.quick.cfg" if quick else "Guarded.thorough.cfg", rnd, chooser)
     out.exhaustive = True
@@ -618,8 +707,10 @@ def run(ctx, out):
     out.note("leg C2S: %d executions validated by TLC" % out.traces_validated)
     classes = ["ok", "connTimeout", "connError", "transportOther", "api-transient", "api-401", "api-403", "api-other"]
     want = [(op, cl, b) for op, kind in sorted(ops.items()) for cl in classes + (["bulk-transient", "bulk-non-retryable"] if kind != "plain" else []) for b in ("0", "1-9", "10")]
+    want += [(op, cl, "shape:" + sh) for op in sorted(ops) for cl in ("api-transient", "api-401", "api-403", "api-other") for sh in API_SHAPES]
+    want += [(op, cl, "shape:" + sh) for op, kind in sorted(ops.items()) if kind != "plain" for cl in ("bulk-transient", "bulk-non-retryable") for sh in ITEM_SHAPES]
     missing = [w for w in want if not SITUATIONS.get(w)]
-    out.extra["situations_exercised"] = "%d of %d (operation x outcome class x preceding retries 0 / 1-9 / 10), least often: %d executions" % (
+    out.extra["situations_exercised"] = "%d of %d (operation x outcome class x (preceding retries 0 / 1-9 / 10 | body shape)), least often: %d executions" % (
         len(want) - len(missing),
         len(want),
         min([SITUATIONS.get(w, 0) for w in want] or [0]),
